@@ -331,6 +331,13 @@ let () =
                 let sens = List.fold_left (fun s k ->
                     let (r', _) = run (fun i -> pert k (varval i)) (pert k x) (pert (-. k) y) (pert k z) in
                     Float.max s (Float.abs (r' -. ref64))) 0.0 [1.0; -1.0] in
+                (* discontinuity probe (mod, compare, branch cuts): a larger perturbation that moves the
+                   reference out of proportion marks the point as unstable *)
+                let sens = List.fold_left (fun s k ->
+                    let (r', _) = run (fun i -> pert k (varval i)) (pert k x) (pert (-. k) y) (pert k z) in
+                    let d = Float.abs (r' -. ref64) in
+                    if d > 20.0 *. Float.abs k *. Float.max s (1e-6 *. (1.0 +. Float.abs ref64)) || Float.is_nan d
+                    then Float.max s 1e30 else s) sens [30.0; -30.0; 300.0; -300.0] in
                 out (Printf.sprintf "V %s %s %s %s %s" (hex32 v32) (hex32 v32u) (hex64 ref64) (hex64 mx) (hex64 sens))
             | "archive", nshapes :: rest ->
                 (* archive N, then per shape: h name doc nv, then nv pairs (varhandle name); variables in serialisation order *)
